@@ -1,11 +1,14 @@
 \* the behaviour of the tree before the two C19 repairs: must violate the property
 CONSTANTS
   MCTrees <- MCTreesQuick
+  WithNextPanic = FALSE
+  SuccessOnlyAtEnd = TRUE
+  RegisterAtomic = TRUE
   KeepFirstError = FALSE
   RecoverPerStage = FALSE
   FirstErrorWins = TRUE
   ErrReadAtCompletion = TRUE
 SPECIFICATION MCSpec
-INVARIANTS AtMostOnce OnlyAfterAll ErrorReported
+INVARIANTS AtMostOnce OnlyAfterAll ErrorReported CompletedOnce
 PROPERTY Terminates
 CHECK_DEADLOCK FALSE
